@@ -43,6 +43,7 @@ def run(ctx):
         if 'Invariant %s is violated' % inv not in w['out'] and not (lock == 'UseSendLock' and 'is violated' in w['out']):
             raise common.Infra('vacuity: SendPath without %s does not violate any invariant' % lock)
         ctx.notes.append('weakened model (%s = FALSE): TLC reports a violated invariant, as it must' % lock)
+    proof(ctx)
     rows = []
     stores = ['memory', 'file'] if quick else ['memory', 'file', 'sqlite']
     for st in stores:
@@ -113,6 +114,29 @@ def run(ctx):
     })
     ctx.assumptions += ['stress schedules are whatever the Go scheduler produced in this run: a lost lock shows there only if the race occurs; forced schedules place one submission at every application callback inside a replay (6 ms wait each), which reaches every point of the replay where the application is called but not points between two store reads; the model check covers every interleaving of the bounded protocol',
                         'store saves and wire receipts are ordered by one global atomic counter (save -> channel send -> channel receive is causally ordered)']
+
+
+def proof(ctx):
+    """the numbering core for any number of processes and submissions: TLAPS proof of Numbering.tla (the unbounded
+    counterpart of C02_Consecutive / C02_StoreNext), plus a TLC run of the same module so that the proved
+    theorem is about a specification that has behaviours"""
+    import shutil
+    import subprocess
+    d = os.path.join(ctx.scratch, 'tlaps')
+    os.makedirs(d, exist_ok=True)
+    shutil.copy(os.path.join(common.SPEC, 'Numbering.tla'), d)
+    p = subprocess.run(['timeout', '900', 'tlapm', '--threads', '16', 'Numbering.tla'], cwd=d, capture_output=True, text=True)
+    out = p.stdout + p.stderr
+    import re
+    m = re.search(r'All (\d+) obligations? proved', out)
+    if p.returncode != 0 or not m:
+        raise common.Infra('tlapm did not prove Numbering.tla:\n' + out[-1500:])
+    cfg = 'SPECIFICATION Spec\nCONSTANTS\n Procs = {"a", "b", "c"}\nINVARIANT Inv\nCHECK_DEADLOCK FALSE\n'
+    r = ctx.tlc('Numbering.tla', 'n.cfg', workers=4, timeout=600, files={'n.cfg': cfg, 'TLAPS.tla': '---- MODULE TLAPS ----\nPTL == TRUE\n====\n'},
+                extra=['-depth', '12', '-simulate', 'num=200'])
+    if 'Error' in r['out'] and 'violated' in r['out']:
+        raise common.Infra('Numbering.tla: TLC contradicts the proved invariant:\n' + r['out'][-1500:])
+    ctx.notes.append('TLAPS: Numbering.tla, %s obligations proved (numbers handed out are exactly 1..next-1 for any set of processes)' % m.group(1))
 
 
 def replay(ctx, path):
